@@ -775,16 +775,12 @@ func writeFieldReadByter(name string, typ FieldType, w *iohelp.ErrorWriter, sett
 			ln = getLineWithTabs(settings.typeByteReaders[typ.Map.Key], depth+1, depthName("k", depth), typ.goString(settings))
 		}
 		w.SafeWrite([]byte(strings.Replace(ln, "=", ":=", 1)))
-		if typ.Map.Value.Array != nil || typ.Map.Value.Map != nil {
-			// a nested container is filled in a local and stored once: an entry under
-			// a NaN key cannot be looked up again to be filled in place
-			vName := depthName("v", depth)
-			writeLineWithTabs(w, "var "+vName+" "+typ.Map.Value.goString(settings), depth+1)
-			writeFieldReadByter(vName, typ.Map.Value, w, settings, depth+1, safe)
-			writeLineWithTabs(w, "("+name+")["+depthName("k", depth)+"] = "+vName, depth+1)
-		} else {
-			writeFieldReadByter("("+name+")["+depthName("k", depth)+"]", typ.Map.Value, w, settings, depth+1, safe)
-		}
+		// the value is read into a local and stored once: an entry under a NaN key cannot
+		// be looked up again, neither to be filled in place nor to advance past it
+		vName := depthName("v", depth)
+		writeLineWithTabs(w, "var "+vName+" "+typ.Map.Value.goString(settings), depth+1)
+		writeFieldReadByter(vName, typ.Map.Value, w, settings, depth+1, safe)
+		writeLineWithTabs(w, "("+name+")["+depthName("k", depth)+"] = "+vName, depth+1)
 		writeLineWithTabs(w, "}", depth)
 	} else {
 		simpleTyp := typ.Simple
